@@ -719,10 +719,23 @@ def run_job(job):
                         v = BV.var("v", 0, 255)
                         buf = symbytes.mk(list(valid[:pos]) + [v] + list(valid[pos + 1:]))
                         r = guarded(lambda: dec(buf))
-                        return v, r, NONDET_USED[0]
+                        re_ = None
+                        if r[0] == "ok" and enc in ("uncompressed", "hybrid", "raw"):
+                            # same-length SEC1 spellings of a point: uncompressed and hybrid share 2L+1 octets
+                            fmts = ("uncompressed", "hybrid") if enc != "raw" else ("raw",)
+                            outs = [guarded(lambda f_=f_: r[1][1].to_string(f_)) for f_ in fmts]
+                            bad_ = [o for o in outs if o[0] != "ok"]
+                            re_ = bad_[0] if bad_ else ("ok", [o[1] for o in outs])
+                        return v, r, NONDET_USED[0], re_, buf
 
-                    for pc, (v, r, nd) in explore(fn):
+                    for pc, (v, r, nd, re_, buf) in explore(fn):
                         inputs = dict(enc=enc, pos=pos, v=v)
+                        if re_ is not None:
+                            # an accepted point string is the SEC1 encoding of the decoded point (no second spelling is accepted)
+                            if re_[0] != "ok":
+                                decide("%s position %d: re-encoding raised %s" % (enc, pos, re_[1:]), pc, False, inputs)
+                            else:
+                                decide("%s position %d: accepted point string is not the encoding of the decoded point" % (enc, pos), pc, z3.Or(*[eqb(o, buf) for o in re_[1]]), inputs)
                         if r[0] == "exc":
                             if r[1] not in ALLOWED:
                                 decide("%s position %d: %s: %s" % (enc, pos, r[1], r[2]), pc, False, inputs)
@@ -902,6 +915,10 @@ def replay(job):
             unchanged = m == valid
             return dict(reproduced=(r[1] not in ALLOWED) or unchanged, signature=sig, detail="%s: %s: %s (input %s)" % (desc, r[1], r[2], m.hex()))
         if "pos" in inp:
+            if enc in ("uncompressed", "hybrid", "raw"):
+                back = run(lambda: [r[1][1].to_string(f_) for f_ in ((("uncompressed", "hybrid") if enc != "raw" else ("raw",)))])
+                if back[0] != "ok" or m not in back[1]:
+                    return dict(reproduced=True, signature=sig, detail="%s: accepted, but the decoded point encodes as %r (a second spelling of a point string is accepted)" % (desc, back))
             return dict(reproduced=False, detail="%s: accepted" % desc)
         return dict(reproduced=True, signature=sig, detail="%s: accepted" % desc)
     if kind == "roundtrip":
